@@ -293,6 +293,9 @@ func randSegs(l *lcg, levels []uint8) []pq.Seg {
 		for pos+c < len(levels) && levels[pos+c] == levels[pos] {
 			c++
 		}
+		if l.next(23) == 0 {
+			segs = append(segs, pq.Seg{RLE: true, N: 0}) // an empty RLE run
+		}
 		if l.next(2) == 0 {
 			n := 1 + l.next(c)
 			if l.next(3) == 0 {
